@@ -1,5 +1,5 @@
 (* C10/Witness.v — non-vacuity of the hypotheses of Properties.v and concrete runs (vm_compute). *)
-From Verif Require Import Common.Base C10.Model C10.Proofs1 C10.Proofs2 C10.Proofs3 C10.Proofs4 C10.Proofs5 C10.Proofs7.
+From Verif Require Import Common.Base C10.Model C10.Proofs1 C10.Proofs2 C10.Proofs3 C10.Proofs4 C10.Proofs5 C10.Proofs7 C10.Checker C10.Proofs9 C10.Proofs10.
 
 (* two pipelines joined by a connector:
      receiver 0 -> cap 10 -> processor 1 -> fanout 11 -> exporter 2, connector 3
@@ -136,3 +136,30 @@ Proof.
 Qed.
 Example orders_by_g1 : orders_by g1 x1 [] [] (stop_order o1) <> None.
 Proof. vm_compute. discriminate. Qed.
+
+(* the clause checker: accepts the model's behaviour on g1 (with the component-level sends-to pairs),
+   and rejects doctored observations — each clause can fail *)
+Definition sends1 : list (nat * nat) := [(0, 1); (1, 2); (1, 3); (3, 4)].
+Definition obs1 (l : list ev) (e : list err) : obs :=
+  {| o_comps := comps g1; o_exts := exts x1; o_sends := sends1; o_deps := deps x1;
+     o_fcs := [3]; o_fxs := []; o_fcp := [1]; o_fxp := [0]; o_log := l; o_errs := e |}.
+Example prop_ok_examples :
+  prop_ok (obs1 (fst (collector_run g1 x1 o1 f_start3)) (snd (collector_run g1 x1 o1 f_start3))) = true /\
+  (* component 2 never shut down (so also not before the extensions) *)
+  violated (obs1 [XStart 0; XStart 1; XStart 2; CStart 4; CStart 3; CStop 0; CStop 1; CStop 3; CStop 4; XStop 2; XStop 1; XStop 0]
+                 [ErrCStart 3; ErrCStop 1; ErrXStop 0]) = [1; 5] /\
+  (* exporter 4 shut down before the connector 3 that feeds it *)
+  violated (obs1 [XStart 0; XStart 1; XStart 2; CStart 4; CStart 3; CStop 0; CStop 1; CStop 4; CStop 3; CStop 2; XStop 2; XStop 1; XStop 0]
+                 [ErrCStart 3; ErrCStop 1; ErrXStop 0]) = [3] /\
+  (* start-up continues after the failed start of 3; the shutdown failure of 1 is not reported *)
+  violated (obs1 [XStart 0; XStart 1; XStart 2; CStart 4; CStart 3; CStart 2; CStop 0; CStop 1; CStop 3; CStop 4; CStop 2; XStop 2; XStop 1; XStop 0]
+                 [ErrCStart 3; ErrXStop 0]) = [7; 8].
+Proof. vm_compute. repeat split. Qed.
+
+(* hypotheses of prop_ok_model are satisfiable: the sends-to pairs of g1 are paths between components *)
+Example wf_b_g1 : wf_b g1 x1 = true.
+Proof. vm_compute. reflexivity. Qed.
+Example ext_reverse_g1 : xstops (fst (collector_run g1 x1 o1 nofail)) = rev (xstarts (fst (collector_run g1 x1 o1 nofail))).
+Proof. vm_compute. reflexivity. Qed.
+Example shared_started_hyp : In (CStart 3) (log g1 x1 o1 nofail) /\ key_of [(2, 7); (3, 7)] 3 = Some 7.
+Proof. vm_compute. tauto. Qed.
